@@ -176,6 +176,21 @@ func discharge(o *Oblig, timeoutS int, thorough bool) SolveResult {
 			}
 		}
 	}
+	if res.Status != "unsat" && res.Status != "sat" && quantified(q) {
+		// all three gave up: quantifier instantiation is sensitive to the search order, so two more attempts with other
+		// random seeds (an `unsat` from any of them is as good as from the first)
+		for _, seed := range []int{7, 23} {
+			sd := solverDef{name: solvers[0].name, cmd: func(t int) []string {
+				return []string{"z3-new", "-in", fmt.Sprintf("-T:%d", t), fmt.Sprintf("smt.random_seed=%d", seed), fmt.Sprintf("sat.random_seed=%d", seed)}
+			}}
+			r := runSolver(sd, q, max(timeoutS/2, 5))
+			tried = append(tried, fmt.Sprintf("%s(seed %d):%s:%.2fs", r.Solver, seed, r.Status, r.TimeS))
+			if r.Status == "unsat" {
+				res = r
+				break
+			}
+		}
+	}
 	if thorough && res.Status == "unsat" && !o.Vacuity {
 		for _, sd := range solvers {
 			if sd.name == res.Solver {
